@@ -495,6 +495,8 @@ def pattern_of(p):
     q = deref(p)
     if isinstance(q, (Closure, FnItem)):
         return ('pred', q)
+    if is_sym(q):
+        return ('symchar', q)
     if isinstance(q, (Agg, SliceRef, VecObj)) and not isinstance(q, (StrRef,)):
         lst, st, en = as_list(q)
         return ('alts', [encode_char(x) for x in lst[st:en]])
@@ -523,6 +525,8 @@ def match_at(I, s, off, pat, backwards=False):
         if off >= s.end:
             return None
         c, w = decode_at(I, s, off)
+    if pat[0] == 'symchar':
+        return w if I.branch(b_eq(c, pat[1])) else None
     return w if I.branch(I.call_closure(pat[1], [c])) else None
 
 
